@@ -294,7 +294,7 @@ func c04Gen() *rapid.Generator[c04Case] {
 			f = genForest(forestParams{maxNodes: maxNodes, maxDepth: maxDepth, names: names, oneRoot: format == "toml" || entry == "root"}).Draw(t, "forest")
 		}
 		c := c04Case{Forest: f, Format: format, Entry: entry}
-		c.Tty = rapid.IntRange(0, 5).Draw(t, "tty") == 0
+		c.Tty = rapid.IntRange(0, 5).Draw(t, "tty") == 0 && ptyOK()
 		if entry == "root" && rapid.IntRange(0, 2).Draw(t, "again") == 0 {
 			c.Again = rapid.IntRange(1, 4).Draw(t, "nAgain")
 		}
